@@ -1471,6 +1471,22 @@ def call_builtin(interp, name, args, kwargs):
             return Const(_math.isclose(args[0].value, args[1].value))
         # a comparison with a tolerance: an opaque decision, named so that the rules can tell it from an exact comparison
         return Atom('isclose', [args[0], args[1], kwargs.get('rel_tol', Const(1e-09)), kwargs.get('abs_tol', Const(0.0))], 'bool')
+    if name in ('math.prod', 'math.fsum') and args:
+        items = iter_items(interp, args[0])
+        if any(isinstance(i, Splice) for i in items):
+            raise Unmodelled('%s over a run of unknown length' % name)
+        for i in items:
+            if i.tag is not None and i.tag not in NUMERIC:
+                raise Raised(Exc('TypeError', 'must be real number, not %s' % i.tag))
+        if name == 'math.prod':
+            acc = kwargs.get('start', args[1] if len(args) > 1 else Const(1))
+            for i in items:
+                acc = arith(interp, 'mul', acc, i)
+            return acc
+        acc = Const(0.0)
+        for i in items:
+            acc = arith(interp, 'add', acc, i)
+        return acc if not isinstance(acc, Const) else Const(float(acc.value))
     if name == 'math.sumprod' and len(args) == 2:
         xs, ys = iter_items(interp, args[0]), iter_items(interp, args[1])
         if any(isinstance(i, Splice) for i in xs + ys):
